@@ -80,6 +80,40 @@ func par2Cycle(r *Run, o cycleOpts) {
 		}
 	}
 
+	// ---- optional update-and-re-protect ----
+	// a file is updated in place beyond its first 16 KiB (same name and
+	// length, so the same file id and recovery set id), the old archive
+	// files are removed and the set is created again, in the same process
+	if !o.big && t.Bool(1, 6, "update-and-reprotect") {
+		for i, f := range w.Files {
+			if len(f.Data) <= 16384+8 {
+				continue
+			}
+			// a Verify of the old generation first (loads its checksums)
+			v0 := r.Verify2(w, w.Index, w.G, nil, SchedSpec{})
+			r.noPanic(v0)
+			d := append([]byte(nil), f.Data...)
+			g := prng{s: t.Draw64(0, "update-seed")}
+			for k := 0; k < 1+int(g.next()%8); k++ {
+				d[16384+int(g.next()%uint64(len(d)-16384))] ^= byte(1 + g.next()%255)
+			}
+			w.Files[i].Data = d
+			w.Disk.Put(w.Path(i), d)
+			for p := range w.Created {
+				w.Disk.Remove(p)
+			}
+			cre2 := r.Create2(w, paths, nil, SchedSpec{})
+			r.noPanic(cre2)
+			if cre2.Err != nil {
+				r.Violate("create-failed", "re-Create after an in-place update failed: %v", cre2.Err)
+			}
+			w.Exps = map[string][]int{}
+			w.RecordCreated(r, cre2)
+			r.Probe("updated-and-reprotected-same-setid")
+			break
+		}
+	}
+
 	// ---- optional clean verify ----
 	if t.Bool(1, 4, "verify-clean") {
 		tr := w.TruthPar2()
